@@ -1,7 +1,7 @@
 (* C15 — All dictionary back-ends agree, and fuzzy search returns true near matches.
    This file pins the statements; it contains nothing but `exact` (+ non-vacuity Examples). *)
-Require Import Base EditDistance DictModel Fuzzy C15Suggest EditDistanceProofs DictProofs FuzzyProofs
-  C15SuggestProofs C15CompleteProofs.
+Require Import Base EditDistance DictModel Fuzzy C15Suggest C15Automaton EditDistanceProofs DictProofs FuzzyProofs
+  C15SuggestProofs C15CompleteProofs C15AutomatonProofs Tables_c15spell C15SpellTable C15ZipProofs.
 From Coq Require Import ZArith Permutation Sorting.Sorted.
 
 (* ---------- the distance function ---------- *)
@@ -565,6 +565,129 @@ Check C15_merged_mutable_fuzzy_complete : forall is_lower lower dbg ms q lq d k,
       covers r k (e_canon e) (lev (normalized q) (e_canon e)).
 Print Assumptions C15_merged_mutable_fuzzy_complete.
 
+(* ---------- the Levenshtein automaton x key list product (Model/C15Automaton.v) ----------
+   state of the automaton of x after reading w = the Wagner–Fischer row: cell i is lev (firstn i x) w, the last cell
+   is lev x w, DFA::distance is Exact(lev x w) within the bound and AtLeast(bound + 1) (None) beyond *)
+Theorem C15_automaton_state : forall x w,
+  (forall i, i <= length x -> nth_error (la_run x w) i = Some (lev (firstn i x) w)) /\
+  last (la_run x w) 0 = lev x w /\
+  (forall d, la_distance d (la_run x w) = if lev x w <=? d then Some (lev x w) else None).
+Proof. exact la_run_spec. Qed.
+Check C15_automaton_state : forall x w,
+  (forall i, i <= length x -> nth_error (la_run x w) i = Some (lev (firstn i x) w)) /\
+  last (la_run x w) 0 = lev x w /\
+  (forall d, la_distance d (la_run x w) = if lev x w <=? d then Some (lev x w) else None).
+Print Assumptions C15_automaton_state.
+
+(* fst's pruning (Automaton::can_match) loses nothing: when no cell of the state of a prefix p is within the bound, no
+   key that extends p is within the bound *)
+Theorem C15_automaton_prune_sound : forall x d p,
+  la_can_match d (la_run x p) = false -> forall r, d < lev x (p ++ r).
+Proof. exact la_prune_sound. Qed.
+Check C15_automaton_prune_sound : forall x d p,
+  la_can_match d (la_run x p) = false -> forall r, d < lev x (p ++ r).
+Print Assumptions C15_automaton_prune_sound.
+
+(* the stream of the product (keys walked in order, abandoned at the first prefix that cannot match, emitted with index
+   and DFA::distance when the final state matches) IS the contract stream, for every word list, query and bound —
+   the contract is satisfiable by an automaton, and what is assumed of fst + levenshtein_automata is only that their
+   stream equals this executable one (the `A` cases of the correspondence compare them item by item) *)
+Theorem C15_automaton_search : forall words x d,
+  la_search words x d = spec_stream lev words x d /\ stream_contract words x d (la_search words x d).
+Proof. exact (fun words x d => conj (la_search_correct words x d) (la_search_contract words x d)). Qed.
+Check C15_automaton_search : forall words x d,
+  la_search words x d = spec_stream lev words x d /\ stream_contract words x d (la_search words x d).
+Print Assumptions C15_automaton_search.
+
+(* FstDictionary::fuzzy_match over the automaton product — NO hypothesis: never panics; only words of the index, true
+   distances (to the normalised query or its lower-case form) within the bound, ordered, capped, no word twice *)
+Theorem C15_fst_fuzzy_automaton : forall (f : fst_dict) q lq d k,
+  exists r, fst_fuzzy la_search f q lq d k = Ok r /\
+    (forall x, In x r ->
+       In (r_word x, r_meta x) (f_words f) /\
+       (r_dist x = lev (normalized q) (r_word x) \/ r_dist x = lev lq (r_word x)) /\ r_dist x <= d) /\
+    StronglySorted (fun a b => r_dist a <= r_dist b) r /\ length r <= k /\ NoDup (map r_word r).
+Proof. exact fst_fuzzy_automaton. Qed.
+Check C15_fst_fuzzy_automaton : forall (f : fst_dict) q lq d k,
+  exists r, fst_fuzzy la_search f q lq d k = Ok r /\
+    (forall x, In x r ->
+       In (r_word x, r_meta x) (f_words f) /\
+       (r_dist x = lev (normalized q) (r_word x) \/ r_dist x = lev lq (r_word x)) /\ r_dist x <= d) /\
+    StronglySorted (fun a b => r_dist a <= r_dist b) r /\ length r <= k /\ NoDup (map r_word r).
+Print Assumptions C15_fst_fuzzy_automaton.
+
+(* … complete for lower-case queries, for FstDictionary::new of every word list *)
+Theorem C15_fst_answers_completely_automaton : forall is_lower lower ws q d k,
+  answers_completely (fst_ops is_lower lower la_search (fst_new is_lower lower ws)) q (normalized q) d k.
+Proof. exact fst_answers_completely_automaton. Qed.
+Check C15_fst_answers_completely_automaton : forall is_lower lower ws q d k,
+  answers_completely (fst_ops is_lower lower la_search (fst_new is_lower lower ws)) q (normalized q) d k.
+Print Assumptions C15_fst_answers_completely_automaton.
+
+(* … and suggest_correct_spelling over it *)
+Theorem C15_suggest_fst_automaton : forall is_common is_lower lower (f : fst_dict) mw lq limit dist,
+  exists r sug,
+    fst_fuzzy la_search f mw lq dist limit = Ok r /\
+    suggest is_common (fst_ops is_lower lower la_search f) mw lq limit dist = Ok sug /\
+    Permutation sug (map r_word r) /\ length sug <= limit /\ NoDup sug /\
+    forall w, In w sug ->
+      In w (map fst (f_words f)) /\ (lev (normalized mw) w <= dist \/ lev lq w <= dist).
+Proof. exact suggest_fst_automaton. Qed.
+Check C15_suggest_fst_automaton : forall is_common is_lower lower (f : fst_dict) mw lq limit dist,
+  exists r sug,
+    fst_fuzzy la_search f mw lq dist limit = Ok r /\
+    suggest is_common (fst_ops is_lower lower la_search f) mw lq limit dist = Ok sug /\
+    Permutation sug (map r_word r) /\ length sug <= limit /\ NoDup sug /\
+    forall w, In w sug ->
+      In w (map fst (f_words f)) /\ (lev (normalized mw) w <= dist \/ lev lq w <= dist).
+Print Assumptions C15_suggest_fst_automaton.
+
+(* the model's score is the score built from the constants the translator reads from spell/mod.rs on every run
+   (weights, the plural and apostrophe characters, the apostrophe count); the same translator pins that the sort is
+   `Vec::sort_by_key` (stable) and that the Levenshtein automata are built without the transposition rule *)
+Theorem C15_score_table : forall is_common mw sug,
+  score_suggestion is_common mw sug = score_suggestion_tab is_common mw sug /\
+  spell_sort_stable = true /\ fst_transposition_cost_one = false.
+Proof. exact score_suggestion_is_table. Qed.
+Check C15_score_table : forall is_common mw sug,
+  score_suggestion is_common mw sug = score_suggestion_tab is_common mw sug /\
+  spell_sort_stable = true /\ fst_transposition_cost_one = false.
+Print Assumptions C15_score_table.
+
+(* ---------- the two automata and the positional zip ----------
+   `aligned ws qn lq d`: every index word is within the bound of both strings or of neither (always so for a lower-case
+   query, qn = lq).  Then the zip loop yields EVERY index word within the bound exactly once, at the SMALLER of its two
+   distances (the query's automaton wins ties) — under the stream contract *)
+Theorem C15_fst_merged_aligned : forall stream (f : fst_dict) qn lq d,
+  (forall x, stream (f_words f) x d = spec_stream lev (f_words f) x d) ->
+  aligned (f_words f) qn lq d ->
+  fst_merged stream f qn lq d = Ok (merged_min (f_words f) qn lq d).
+Proof. exact fst_merged_aligned. Qed.
+Check C15_fst_merged_aligned : forall stream (f : fst_dict) qn lq d,
+  (forall x, stream (f_words f) x d = spec_stream lev (f_words f) x d) ->
+  aligned (f_words f) qn lq d ->
+  fst_merged stream f qn lq d = Ok (merged_min (f_words f) qn lq d).
+Print Assumptions C15_fst_merged_aligned.
+
+(* … hence FstDictionary::fuzzy_match over the automaton product (no hypothesis on a stream) reports for each result
+   the minimum of its distances to the normalised query and to the lower-case form, both within the bound.  Without
+   alignment the zip pairs unrelated words and only "one of the two distances" holds (C15_fst_fuzzy,
+   C15_fst_zip_incomplete) *)
+Theorem C15_fst_fuzzy_aligned_min : forall (f : fst_dict) q lq d k,
+  aligned (f_words f) (normalized q) lq d ->
+  exists r, fst_fuzzy la_search f q lq d k = Ok r /\
+    forall x, In x r ->
+      r_dist x = Nat.min (lev (normalized q) (r_word x)) (lev lq (r_word x)) /\
+      In (r_word x, r_meta x) (f_words f) /\ lev (normalized q) (r_word x) <= d /\ lev lq (r_word x) <= d.
+Proof. exact fst_fuzzy_aligned_min_automaton. Qed.
+Check C15_fst_fuzzy_aligned_min : forall (f : fst_dict) q lq d k,
+  aligned (f_words f) (normalized q) lq d ->
+  exists r, fst_fuzzy la_search f q lq d k = Ok r /\
+    forall x, In x r ->
+      r_dist x = Nat.min (lev (normalized q) (r_word x)) (lev lq (r_word x)) /\
+      In (r_word x, r_meta x) (f_words f) /\ lev (normalized q) (r_word x) <= d /\ lev lq (r_word x) <= d.
+Print Assumptions C15_fst_fuzzy_aligned_min.
+
 (* ---------- non-vacuity ---------- *)
 Example C15_wf_nonvacuous :
   let kitten := [107; 105; 116; 116; 101; 110]%N in
@@ -683,3 +806,29 @@ Example C15_complete_nonvacuous :
   lev (normalized q) w_ab = 1 /\ lev (normalized q) w_abc = 1 /\
   covers [mkfres w_abc 1 1] 1 w_ab 1.
 Proof. exact complete_example. Qed.
+
+(* "ab" against [ab; abc; b; bbbb], bound 1: three keys streamed with their distances, "bbbb" abandoned at "bbb" *)
+Example C15_automaton_nonvacuous :
+  let ws := [(w_ab, 2); (w_abc, 1); ([98%N], 3); ([98; 98; 98; 98]%N, 4)] in
+  la_search ws w_ab 1 = [(0, 0); (1, 1); (2, 1)] /\
+  la_run w_ab [98; 98]%N = [2; 2; 1] /\ la_run w_ab [98; 98; 98]%N = [3; 3; 2] /\
+  la_walk w_ab 1 (la_start w_ab) [98; 98; 98; 98]%N = None /\
+  la_can_match 1 (la_run w_ab [98; 98; 98]%N) = false /\ lev w_ab [98; 98; 98; 98]%N = 3.
+Proof. exact la_example. Qed.
+
+Example C15_score_table_nonvacuous :
+  score_suggestion_tab odd_common w_ths (mkfres w_th's 1 2) = (-10)%Z /\
+  score_suggestion_tab odd_common w_ths (mkfres w_the 1 1) = (-5)%Z /\
+  score_suggestion_tab odd_common w_ths (mkfres [] 3 1) = i32_max.
+Proof. exact score_table_example. Qed.
+
+(* aligned streams with the minimum taken from different automata: {"AB", "Bc", "b"}, query "AB" / "ab", bound 2 *)
+Example C15_aligned_nonvacuous :
+  let f := fst_new ascii_is_lower ascii_lower [(w_AB, 1); ([66; 99]%N, 2); ([98%N], 3)] in
+  f_words f = [(w_AB, 1); ([66; 99]%N, 2); ([98%N], 3)] /\
+  spec_stream lev (f_words f) w_AB 2 = [(0, 0); (1, 2); (2, 2)] /\
+  spec_stream lev (f_words f) w_ab 2 = [(0, 2); (1, 2); (2, 1)] /\
+  fst_merged (spec_stream lev) f w_AB w_ab 2
+    = Ok [mkfres w_AB 0 1; mkfres [66; 99]%N 2 2; mkfres [98%N] 1 3] /\
+  merged_min (f_words f) w_AB w_ab 2 = [mkfres w_AB 0 1; mkfres [66; 99]%N 2 2; mkfres [98%N] 1 3].
+Proof. exact aligned_example. Qed.
